@@ -29,7 +29,17 @@ fn fields(dev: &SparseDev, slot: usize) -> J {
     let bs = st.get(lba as u32);
     let fsinfo = le16(&bs, 48);
     let info = st.get((lba as u32).wrapping_add(fsinfo as u32));
+    // the other three slots of the table, as (type, start, length) with the 32-bit numbers as pairs of halves
+    let pair = |x: u64| json!([(x >> 16) & 0xFFFF, x & 0xFFFF]);
+    let others: Vec<J> = (0..4)
+        .filter(|o| *o != slot)
+        .map(|o| {
+            let q = 446 + o * 16;
+            json!({"ptype": mbr[q + 4], "lba": pair(le32(&mbr, q + 8)), "len": pair(le32(&mbr, q + 12))})
+        })
+        .collect();
     json!({
+        "others": others,
         "mbrsig": le16(&mbr, 510) == 0xAA55, "pstat": mbr[p], "ptype": mbr[p + 4], "lba": fld(lba), "len": fld(le32(&mbr, p + 12)),
         "bpbsig": le16(&bs, 510) == 0xAA55, "bps": le16(&bs, 11), "spc": bs[13], "resv": le16(&bs, 14), "nfats": bs[16],
         "rootent": le16(&bs, 17), "tot16": le16(&bs, 19), "fatsz16": le16(&bs, 22), "tot32": fld(le32(&bs, 32)),
@@ -183,6 +193,53 @@ pub fn mount_vectors(specs: &J, out: &mut dyn Write, tier: &str, seed: u64) -> J
                 st.put(which, &b);
             }
             emit(desc, d, false, out, &mut n);
+        }
+        // the other slots of the table describe partitions anywhere - next to this one, overlapping it, at and past the
+        // end of the 32-bit block range: opening this slot must not trip over them
+        {
+            let plen = {
+                let st = img.dev.0.borrow();
+                let m = st.get(0);
+                u32::from_le_bytes([m[p + 12], m[p + 13], m[p + 14], m[p + 15]])
+            };
+            let pend = lba.wrapping_add(plen);
+            let combos: Vec<(u32, u32)> = vec![
+                (0x8000_0000, 0x8000_0000), (0xFFFF_FFFF, 1), (0xFFFF_FFFF, 0xFFFF_FFFF), (1, 0xFFFF_FFFF), (0xFFFF_FFFE, 1), (0x7FFF_FFFF, 0x8000_0001),
+                (pend, 100), (pend, 0xFFFF_FFFF), (pend.wrapping_add(1000), 0x10_0000), (0, lba), (lba, plen), (pend.wrapping_sub(1), 1), (0, 0xFFFF_FFFF), (lba.wrapping_add(1), 1),
+            ];
+            for o in (0..4).filter(|o| *o != slot) {
+                let q = 446 + o * 16;
+                for &ty in &[0x0Cu8, 0x83, 0x00] {
+                    for &(st0, ln) in &combos {
+                        let d = img.dev.snapshot();
+                        {
+                            let mut st = d.0.borrow_mut();
+                            let mut m = st.get(0);
+                            m[q + 4] = ty;
+                            m[q + 8..q + 12].copy_from_slice(&st0.to_le_bytes());
+                            m[q + 12..q + 16].copy_from_slice(&ln.to_le_bytes());
+                            st.put(0, &m);
+                        }
+                        emit(format!("slot {} of the table: type {} start {} length {}", o, ty, st0, ln), d, true, out, &mut n);
+                    }
+                }
+            }
+            // and all three others at once
+            for &(st0, ln) in &combos {
+                let d = img.dev.snapshot();
+                {
+                    let mut st = d.0.borrow_mut();
+                    let mut m = st.get(0);
+                    for o in (0..4).filter(|o| *o != slot) {
+                        let q = 446 + o * 16;
+                        m[q + 4] = 0x06;
+                        m[q + 8..q + 12].copy_from_slice(&st0.to_le_bytes());
+                        m[q + 12..q + 16].copy_from_slice(&ln.to_le_bytes());
+                    }
+                    st.put(0, &m);
+                }
+                emit(format!("every other slot of the table: type 6 start {} length {}", st0, ln), d, true, out, &mut n);
+            }
         }
         // the partition at the very end of the 32-bit block range, with a valid boot sector there
         for &far in &[0xFFFF_FFFFu32, 0xFFFF_FFFE, 0xFFFF_FF00, 0x8000_0000] {
